@@ -57,6 +57,7 @@ type Contract struct {
 	IsFuncType bool
 	Sig        string // functype over an unnamed signature: its Go type expression
 	Preserves  []string
+	Iterator   bool // e.g. Counters.Each: calls its function argument once per entry of the receiver
 }
 
 // hasCallSpec: the contract says something a static caller can use (otherwise the body is
@@ -281,6 +282,24 @@ func (lib *SpecLib) loadContractFile(path, pkgPath string) error {
 			case "pure":
 				cur.Pure = true
 				continue
+			case "iterator":
+				cur.Iterator = true
+				continue
+			case "iter":
+				// iter invariant E   (on a closure passed to an iterator function)
+				f := strings.Fields(rest)
+				if len(f) < 2 || f[0] != "invariant" {
+					return fail(fmt.Errorf("iter invariant <expr>"))
+				}
+				cl.Kind = "iterinv"
+				cl.Text = strings.TrimSpace(strings.TrimPrefix(strings.TrimSpace(rest), "invariant"))
+				e, err := parseCExpr(cl.Text)
+				if err != nil {
+					return fail(err)
+				}
+				cl.Expr = e
+				cur.Clauses = append(cur.Clauses, cl)
+				continue
 			case "nosafety":
 				cur.NoSafety = true
 				continue
@@ -356,7 +375,7 @@ func (lib *SpecLib) loadContractFile(path, pkgPath string) error {
 	return nil
 }
 
-var clauseKeywords = map[string]bool{"preserves": true, "functype": true, "label": true, "captures": true, "func": true, "pred": true, "specfunc": true, "axiom": true, "lemma": true,
+var clauseKeywords = map[string]bool{"iterator": true, "iter": true, "preserves": true, "functype": true, "label": true, "captures": true, "func": true, "pred": true, "specfunc": true, "axiom": true, "lemma": true,
 	"requires": true, "ensures": true, "modifies": true, "loop": true, "floats": true, "may_panic": true,
 	"inline": true, "trusted": true, "pure": true, "property": true, "assume": true, "nosafety": true}
 
